@@ -43,6 +43,7 @@ type Session struct {
 	lastDLS         string
 	byContent       map[string]string // decoded node -> bytes it was written as
 	lastCwalk       string
+	isoCount        int
 	ctx             context.Context
 }
 
@@ -220,7 +221,11 @@ func (s *Session) Exec(line string) (obs string, viol string) {
 		s.lastDLS = o
 		return o, v
 	case "flush":
-		o, v := s.execFlush(int(num(1)), int(num(2)), int64(num(3)), parseFails(t[4]))
+		cancelAt := -1
+		if len(t) > 5 && strings.HasPrefix(t[5], "c") {
+			cancelAt, _ = strconv.Atoi(t[5][1:])
+		}
+		o, v := s.execFlush(int(num(1)), int(num(2)), int64(num(3)), parseFails(t[4]), cancelAt)
 		if s.lastMaxInflight > lastSessionMaxInflight {
 			lastSessionMaxInflight = s.lastMaxInflight
 		}
@@ -589,6 +594,31 @@ func (s *Session) Exec(line string) (obs string, viol string) {
 			v = fmt.Sprintf("root records size %d, %d entries reachable", r.Size, n)
 		}
 		return sh, v
+	case "isoload":
+		// isoload <rootslot> <slot>: the version is opened on a store of its own (another prefix) that
+		// holds exactly the nodes this version reaches — a replica / a primary that never saw the
+		// other versions.  Every tree reads through its own store; nothing may go through another's.
+		r := s.Roots[int(num(1))]
+		if r == nil {
+			return "bad-slot", ""
+		}
+		s.isoCount++
+		iso := NewRecStore(fmt.Sprintf("iso%d", s.isoCount))
+		if r.Link != nil {
+			for name := range s.reachOf(*r.Link, nil) {
+				iso.m[name] = s.Store.Get(name)
+			}
+		}
+		lc := s.remoteConfig()
+		lc.StoreImmutablePartsWith = iso
+		m, err := r.LoadMast(s.ctx, lc)
+		if err != nil {
+			return errClass(err), "loading a root from a store that holds exactly its nodes failed: " + err.Error()
+		}
+		s.Trees[int(num(2))] = m
+		s.Oracle[int(num(2))] = copyMap(s.ROracle[int(num(1))])
+		s.setBase(int(num(2)), r)
+		return "ok", ""
 	case "load":
 		r := s.Roots[int(num(1))]
 		if r == nil {
@@ -644,6 +674,9 @@ func (s *Session) ModelLine(line string) string {
 	}
 	if t[0] == "newmem" {
 		return "new " + t[1]
+	}
+	if t[0] == "isoload" {
+		return "load " + strings.Join(t[1:], " ")
 	}
 	if t[0] == "vcheck" || t[0] == "twostore" {
 		return "echo ok"
